@@ -3,7 +3,7 @@ Model of the interpolator caches of a point isotherm (core/pointisotherm.py `loa
 `spreading_pressure_at`; utilities/isotherm_interpolator.py): the hidden state is the key (branch, kind, fill) of the two
 cached interpolators; a query rebuilds the interpolator exactly when the cache is empty or one component of the key differs,
 then evaluates the CACHED interpolator.  The evaluation of an interpolator built with key `k` on the observable content `o`
-is an arbitrary function `E o k x` (scipy is not modelled).  Core Lean.
+is an arbitrary function `E o k x`, whether its constructor raises an arbitrary function `B o k` (scipy is not modelled).  Core Lean.
 -/
 namespace PgVerif.Model.Cache
 
@@ -27,28 +27,45 @@ def mustRebuild (c : Option (Key φ)) (k : Key φ) : Bool :=
   | none => true
   | some c => c.branch != k.branch || c.kind != k.kind || c.fill != k.fill
 
-/-- `loading_at`: rebuild if needed, then evaluate the cached interpolator -/
-def loadingAt (E : ο → Key φ → χ → ρ) (o : ο) (h : Hidden φ) (k : Key φ) (x : χ) : ρ × Hidden φ :=
-  let h' : Hidden φ := if mustRebuild h.l k then { h with l := some k } else h
-  match h'.l with
-  | some c => (E o c x, h')
-  | none => (E o k x, h')        -- unreachable: after the step above the cache is never empty
+/-- the rebuild step of `loading_at` / `pressure_at`:
+`if <mustRebuild>: self.x_interpolator = IsothermInterpolator(...)`.  The constructor may raise (`B o k = some err`: e.g. a cubic
+spline through duplicate abscissae): then the assignment does not happen, the cache keeps what it held and the call ends with
+that error.  Returns (error of the constructor if any, cache afterwards). -/
+def rebuild (B : ο → Key φ → Option ρ) (o : ο) (c : Option (Key φ)) (k : Key φ) : Option ρ × Option (Key φ) :=
+  if mustRebuild c k then
+    match B o k with
+    | some err => (some err, c)
+    | none => (none, some k)
+  else (none, c)
 
-def pressureAt (E : ο → Key φ → χ → ρ) (o : ο) (h : Hidden φ) (k : Key φ) (x : χ) : ρ × Hidden φ :=
-  let h' : Hidden φ := if mustRebuild h.p k then { h with p := some k } else h
-  match h'.p with
-  | some c => (E o c x, h')
-  | none => (E o k x, h')
+/-- evaluate the CACHED interpolator (the code never looks at the requested key again) -/
+def evalCached (E : ο → Key φ → χ → ρ) (o : ο) (c : Option (Key φ)) (k : Key φ) (x : χ) : ρ :=
+  match c with
+  | some c => E o c x
+  | none => E o k x        -- unreachable: after a successful rebuild step the cache is never empty
+
+/-- `loading_at`: rebuild if needed, then evaluate the cached interpolator -/
+def loadingAt (E : ο → Key φ → χ → ρ) (B : ο → Key φ → Option ρ) (o : ο) (h : Hidden φ) (k : Key φ) (x : χ) : ρ × Hidden φ :=
+  match (rebuild B o h.l k).1 with
+  | some err => (err, { h with l := (rebuild B o h.l k).2 })
+  | none => (evalCached E o (rebuild B o h.l k).2 k x, { h with l := (rebuild B o h.l k).2 })
+
+def pressureAt (E : ο → Key φ → χ → ρ) (B : ο → Key φ → Option ρ) (o : ο) (h : Hidden φ) (k : Key φ) (x : χ) : ρ × Hidden φ :=
+  match (rebuild B o h.p k).1 with
+  | some err => (err, { h with p := (rebuild B o h.p k).2 })
+  | none => (evalCached E o (rebuild B o h.p k).2 k x, { h with p := (rebuild B o h.p k).2 })
 
 /-- `spreading_pressure_at` (after the repair of S7): the range guard depends on the arguments only (`guard o fill x`),
-then the last segment is read through `loading_at` with kind `linear` -/
-def spreadingAt (E : ο → Key φ → χ → ρ) (guard : ο → Option φ → χ → Option ρ) (S : ο → χ → ρ → ρ)
+then the last segment is read through `loading_at` with kind `linear` (an error of that call ends the query) -/
+def spreadingAt (E : ο → Key φ → χ → ρ) (B : ο → Key φ → Option ρ) (guard : ο → Option φ → χ → Option ρ) (S : ο → χ → ρ → ρ)
     (o : ο) (h : Hidden φ) (branch : String) (fill : Option φ) (x : χ) : ρ × Hidden φ :=
   match guard o fill x with
   | some refused => (refused, h)
   | none =>
-    let (lq, h') := loadingAt E o h ⟨branch, "linear", fill⟩ x
-    (S o x lq, h')
+    match (rebuild B o h.l ⟨branch, "linear", fill⟩).1 with
+    | some err => (err, { h with l := (rebuild B o h.l ⟨branch, "linear", fill⟩).2 })
+    | none => (S o x (evalCached E o (rebuild B o h.l ⟨branch, "linear", fill⟩).2 ⟨branch, "linear", fill⟩ x),
+               { h with l := (rebuild B o h.l ⟨branch, "linear", fill⟩).2 })
 
 inductive Query (φ χ : Type)
   | loadingAt (k : Key φ) (x : χ)
@@ -60,18 +77,248 @@ inductive Query (φ χ : Type)
 structure World (φ ο χ ρ : Type) where
   EL : ο → Key φ → χ → ρ
   EP : ο → Key φ → χ → ρ
+  /-- `some err`: the constructor of the loading / pressure interpolator raises for this key -/
+  BL : ο → Key φ → Option ρ
+  BP : ο → Key φ → Option ρ
   guard : ο → Option φ → χ → Option ρ
   S : ο → χ → ρ → ρ
   plain : ο → String → ρ
 
 def run (w : World φ ο χ ρ) (o : ο) (h : Hidden φ) : Query φ χ → ρ × Hidden φ
-  | .loadingAt k x => loadingAt w.EL o h k x
-  | .pressureAt k x => pressureAt w.EP o h k x
-  | .spreadingAt b f x => spreadingAt w.EL w.guard w.S o h b f x
+  | .loadingAt k x => loadingAt w.EL w.BL o h k x
+  | .pressureAt k x => pressureAt w.EP w.BP o h k x
+  | .spreadingAt b f x => spreadingAt w.EL w.BL w.guard w.S o h b f x
   | .plain n => (w.plain o n, h)
 
 /-- the hidden state after a history of queries (the observable content is not an output: no query can change it) -/
 def after (w : World φ ο χ ρ) (o : ο) (h : Hidden φ) (qs : List (Query φ χ)) : Hidden φ :=
   qs.foldl (fun h q => (run w o h q).2) h
+
+/-- invariant of the hidden state: a cached interpolator is one whose constructor succeeded on this content -/
+def Valid (w : World φ ο χ ρ) (o : ο) (h : Hidden φ) : Prop :=
+  (∀ c, h.l = some c → w.BL o c = none) ∧ (∀ c, h.p = some c → w.BP o c = none)
+
+end PgVerif.Model.Cache
+
+/-!
+## Generic shape of a read-only query on an object with hidden state
+
+`step o h q = (outcome, observable state afterwards, hidden state afterwards)`.  `afterG` runs a history.  The three
+concrete hidden states below (thermodynamic state of an adsorbate, module-level loaded-curve / kernel caches, and the
+interpolator caches above) are instances; `Session` puts them side by side.
+-/
+namespace PgVerif.Model.Cache
+
+section Generic
+variable {ο η Q ρ : Type}
+
+def afterG (step : ο → η → Q → ρ × ο × η) (s : ο × η) (qs : List Q) : ο × η :=
+  qs.foldl (fun s q => ((step s.1 s.2 q).2.1, (step s.1 s.2 q).2.2)) s
+
+end Generic
+
+/-- outcome of an accessor: a value, or the kind of error (`CalculationError` is the only one the thermodynamic
+accessors raise after the fallback to the dictionary) -/
+inductive Out (ρ : Type)
+  | ok (v : ρ)
+  | calcErr
+  deriving DecidableEq, Repr
+
+/-!
+## Thermodynamic state of an adsorbate (core/adsorbate.py)
+
+`Adsorbate._state` is `None` until the property `backend` is read for the first time; then it is ONE mutable CoolProp
+`AbstractState`.  Every accessor with `calculate=True` does `state = self.backend; state.update(pair, v1, v2)` with its own
+arguments and then reads one quantity from the state (`enthalpy_liquefaction`: two such steps, combined by subtraction);
+when CoolProp raises, the accessor falls back to the dictionary look-up `get_prop(key)` (the `calculate=False` path), which
+raises `CalculationError` when the key is absent.  `t_triple`, `t_critical`, `p_critical`, `molar_mass` read constants of the
+fluid through the state without updating it; `p_triple` asks `PropsSI` without touching the state.
+
+Observable part `o : ο`: the adsorbate as the user sees it (name, aliases, the `properties` dictionary); the model only needs
+`dict o key` (the dictionary, already scaled to the unit of the accessor) and the values CoolProp would return for it.
+Hidden part: `none` = `_state is None`; `some none` = created, never updated; `some (some f)` = last flash `f`.
+
+`policy cur req` says whether the accessor really performs `state.update(req)` when the state currently holds `cur`.
+The code always updates (`alwaysUpdate`).  The history-independence theorem holds under the invariant `FullUpdate`:
+"an accessor may skip the update only if the state already holds ALL coordinates (pair, v1, v2) it is going to read".
+-/
+namespace Thermo
+
+structure Flash (φ : Type) where
+  pair : String          -- "QT" | "PQ"
+  v1 : φ
+  v2 : φ
+  deriving DecidableEq, Repr
+
+abbrev Hidden (φ : Type) := Option (Option (Flash φ))
+
+structure World (φ ο ρ : Type) where
+  /-- what the state returns for quantity `name` after `update f` (`none`: CoolProp raises, or there is no backend) -/
+  F : ο → Flash φ → String → Option ρ
+  /-- constants of the fluid (`none`: not available) -/
+  K : ο → String → Option ρ
+  /-- the `properties` dictionary, scaled to the unit the accessor returns -/
+  dict : ο → String → Option ρ
+  /-- how an accessor combines its reads -/
+  comb : List ρ → ρ
+  /-- does the accessor perform `state.update(req)` when the state holds `cur`? -/
+  policy : Option (Flash φ) → Flash φ → Bool
+
+def alwaysUpdate {φ : Type} : Option (Flash φ) → Flash φ → Bool := fun _ _ => true
+
+/-- the invariant under which the shared state is invisible -/
+def FullUpdate {φ : Type} (policy : Option (Flash φ) → Flash φ → Bool) : Prop :=
+  ∀ cur req, policy cur req = false → cur = some req
+
+inductive Query (φ : Type)
+  /-- `calculate=True` accessor: these (update, read) steps, fall back to dictionary entry `key` -/
+  | flashes (steps : List (Flash φ × String)) (key : String)
+  /-- `calculate=True` accessor of a constant; `viaState`: through `self.backend` (creates the state) or not (`p_triple`) -/
+  | const (name key : String) (viaState : Bool)
+  /-- `calculate=False` -/
+  | lookup (key : String)
+
+variable {φ ο ρ : Type}
+
+def lookupOut (w : World φ ο ρ) (o : ο) (key : String) : Out ρ :=
+  match w.dict o key with
+  | some v => .ok v
+  | none => .calcErr
+
+/-- one `state.update(f)` (if the policy says so) followed by one read from the state -/
+def flashRead (w : World φ ο ρ) (o : ο) (s : Option (Flash φ)) (f : Flash φ) (name : String) : Option ρ × Option (Flash φ) :=
+  let s' := if w.policy s f then some f else s
+  (match s' with
+   | some g => w.F o g name
+   | none => none, s')
+
+def runSteps (w : World φ ο ρ) (o : ο) : Option (Flash φ) → List (Flash φ × String) → Option (List ρ) × Option (Flash φ)
+  | s, [] => (some [], s)
+  | s, (f, name) :: rest =>
+    match (flashRead w o s f name).1 with
+    | none => (none, (flashRead w o s f name).2)
+    | some v => (((runSteps w o (flashRead w o s f name).2 rest).1).map (v :: ·), (runSteps w o (flashRead w o s f name).2 rest).2)
+
+/-- the property `backend`: the state, created on first use -/
+def backend (h : Hidden φ) : Option (Flash φ) := h.getD none
+
+/-- outcome, observable adsorbate afterwards, hidden state afterwards -/
+def run (w : World φ ο ρ) (o : ο) (h : Hidden φ) : Query φ → Out ρ × ο × Hidden φ
+  | .flashes steps key =>
+    let r := runSteps w o (backend h) steps
+    (match r.1 with
+     | some vs => .ok (w.comb vs)
+     | none => lookupOut w o key, o, some r.2)
+  | .const name key viaState =>
+    (match w.K o name with
+     | some v => .ok v
+     | none => lookupOut w o key, o, if viaState then some (backend h) else h)
+  | .lookup key => (lookupOut w o key, o, h)
+
+end Thermo
+
+/-!
+### The defect class "an accessor memoises into the public dictionary"
+
+Same accessor, but a value obtained from the backend is also stored under the accessor's key when the key is absent
+(`properties.setdefault(key, value)`).  The observable is then the dictionary itself.  Used only for the witnesses in
+Props/C04.lean: the adsorbate is changed by a read-only call, and a later `calculate=False` look-up changes its KIND of outcome.
+-/
+namespace ThermoMemo
+open Thermo
+
+abbrev Dict (ρ : Type) := List (String × ρ)
+
+variable {φ ρ : Type}
+
+def setdefault (d : Dict ρ) (key : String) (v : ρ) : Dict ρ :=
+  match d.lookup key with
+  | some _ => d
+  | none => d ++ [(key, v)]
+
+/-- `run` of a constant accessor with memoisation (the dictionary is the observable) -/
+def runConstMemo (w : Thermo.World φ (Dict ρ) ρ) (o : Dict ρ) (h : Thermo.Hidden φ) (name key : String) : Out ρ × Dict ρ × Thermo.Hidden φ :=
+  match w.K o name with
+  | some v => (.ok v, setdefault o key v, h)
+  | none => (lookupOut w o key, o, h)
+
+end ThermoMemo
+
+/-!
+## Module-level caches of loaded reference curves and DFT kernels
+(characterisation/models_thickness.py `_LOADED` + `load_std_isotherm`, characterisation/psd_kernel.py `_LOADED` + `_load_kernel`)
+
+`if key in _LOADED: return _LOADED[key]`; otherwise load the file, build the interpolator(s), store, return.
+A request `r : ι` (a curve name, a kernel path) is stored under `keyOf r`; `loader r` is what loading from disk gives
+(the files do not change during a session).  The cache is invisible under the invariant `Sound`: "the content stored under
+`keyOf r` is `loader r`"; it is preserved by `load` when the key determines the content (`KeyDetermines`).
+-/
+namespace Loaded
+
+abbrev Hidden (κ ν : Type) := List (κ × ν)
+
+variable {ι κ ν : Type} [DecidableEq κ]
+
+def load (keyOf : ι → κ) (loader : ι → ν) (c : Hidden κ ν) (r : ι) : ν × Hidden κ ν :=
+  match c.lookup (keyOf r) with
+  | some v => (v, c)
+  | none => (loader r, (keyOf r, loader r) :: c)
+
+def Sound (keyOf : ι → κ) (loader : ι → ν) (c : Hidden κ ν) : Prop :=
+  ∀ r v, c.lookup (keyOf r) = some v → v = loader r
+
+def KeyDetermines (keyOf : ι → κ) (loader : ι → ν) : Prop :=
+  ∀ r r', keyOf r = keyOf r' → loader r = loader r'
+
+def after (keyOf : ι → κ) (loader : ι → ν) (c : Hidden κ ν) (rs : List ι) : Hidden κ ν :=
+  rs.foldl (fun c r => (load keyOf loader c r).2) c
+
+end Loaded
+
+/-!
+## A session: one point isotherm, its adsorbate, the module caches
+
+Hidden state = interpolator keys × thermodynamic state × loaded curves; a query addresses one of the three.
+The observable part (isotherm content, adsorbate) is returned unchanged by every query.
+-/
+namespace Session
+
+structure Obs (οi οa : Type) where
+  iso : οi
+  ads : οa
+
+structure Hid (φ κ ν : Type) where
+  interp : Cache.Hidden φ
+  thermo : Thermo.Hidden φ
+  loaded : Loaded.Hidden κ ν
+
+inductive Query (φ χ ι : Type)
+  | iso (q : Cache.Query φ χ)
+  | ads (q : Thermo.Query φ)
+  | std (r : ι)
+
+/-- uniform outcome type of a session -/
+inductive Res (ρ ν : Type)
+  | val (v : ρ)
+  | out (v : Out ρ)
+  | obj (v : ν)
+
+structure World (φ οi οa χ ρ ι κ ν : Type) where
+  iso : Cache.World φ οi χ ρ
+  ads : Thermo.World φ οa ρ
+  keyOf : ι → κ
+  loader : ι → ν
+
+variable {φ οi οa χ ρ ι κ ν : Type} [DecidableEq φ] [DecidableEq κ]
+
+def step (w : World φ οi οa χ ρ ι κ ν) (o : Obs οi οa) (h : Hid φ κ ν) : Query φ χ ι → Res ρ ν × Obs οi οa × Hid φ κ ν
+  | .iso q => (.val (Cache.run w.iso o.iso h.interp q).1, o, { h with interp := (Cache.run w.iso o.iso h.interp q).2 })
+  | .ads q => (.out (Thermo.run w.ads o.ads h.thermo q).1, { o with ads := (Thermo.run w.ads o.ads h.thermo q).2.1 },
+               { h with thermo := (Thermo.run w.ads o.ads h.thermo q).2.2 })
+  | .std r => (.obj (Loaded.load w.keyOf w.loader h.loaded r).1, o, { h with loaded := (Loaded.load w.keyOf w.loader h.loaded r).2 })
+
+def fresh : Hid φ κ ν := ⟨⟨none, none⟩, none, []⟩
+
+end Session
 
 end PgVerif.Model.Cache
